@@ -56,7 +56,7 @@ def handle (op : String) (a : Json) : Except String Json := do
     let steps ← (← fldArr a "steps").mapM getStep
     return arrJ ((runHistory [] steps).map (optJ boolJ))
   | "match" => return boolJ (matchOk (← getMatch a))
-  | "project" => return boolJ (projectOk (← fldStrs a "task_clips") (← fldStrs a "ann_clips"))
+  | "project" => return boolJ (projectOkFast (← fldStrs a "task_clips") (← fldStrs a "ann_clips"))
   | "clip" => return boolJ (clipOk (← fldRat a "start") (← fldRat a "end"))
   | "unit" => return boolJ (optUnitOk (← fldOptRat a "x"))
   | "unit_f" => return boolJ (optUnitOkF (← fldOptF a "x"))
